@@ -304,16 +304,19 @@ func H_C06_readd_vector() {
 	vFlushAt(0, idx.Flush)
 	vAssert(idx.Remove(*NewVectorNodeWithID(5, nil)) == nil, "remove-ok")
 	vFlushAt(1, idx.Flush)
-	add(5, 20) // the update: new content for id 5
+	// the update: new content for id 5, far away (another cell for the ivf kinds) or next to the old content
+	// (same cell, which still holds the soft-deleted old entry unless a flush came in between)
+	newX := []float32{20, 2}[vChoose("new_content_at", 2)]
+	add(5, newX)
 	vFlushAt(2, idx.Flush)
 	for pass := 0; pass < 2; pass++ {
-		res, err := idx.NewSearch().WithQuery([]float32{19}).WithK(0).WithNProbes(0).Execute()
+		res, err := idx.NewSearch().WithQuery([]float32{newX + 1}).WithK(0).WithNProbes(0).Execute()
 		vAssert(err == nil, "search-ok")
 		n5 := 0
 		for _, r := range res {
 			if r.GetId() == 5 {
 				n5++
-				vAssert(r.Score < 4 || kind >= vKPQ, "new-content-found-not-old") // old content is at distance 18^2
+				vAssert(r.Score < 4 || kind >= vKPQ, "new-content-found-not-old") // new content at distance 1, old at >= 4
 			}
 		}
 		vAssert(n5 == 1, "re-added-id-findable-exactly-once")
